@@ -869,46 +869,53 @@ def _probes(model, rep):
     for tensor, comp_axes in (((), ()), ((Poly.sym("n_comp"),), ("comp",)),
                               ((Poly.sym("n_c1"), Poly.sym("n_c2")),
                                ("c1", "c2"))):
-        class XS:
-            skv_isarray = True
+        # points given as (dim, npts) and with trailing axes (dim, a, b)
+        for pts_axes in (("pt",), ("a", "b")):
+            xs = AxArr(("d",) + pts_axes, "x")
+            probed = []
 
-            def skv_getattr(self, name):
-                if name == "shape":
-                    return (2, Poly.sym("n_pt"))
-                raise Unsupported("x." + name)
-        xs = XS()
+            class Mat:
+                def skv_binop(self, op, other, reflected):
+                    if isinstance(op, ast.MatMult) and not reflected and \
+                            other == "Y":
+                        px = probed[-1]
+                        if not (isinstance(px, AxArr) and len(px.axes) == 2
+                                and px.axes[0] == "d"):
+                            raise Unsupported("probes() of points that are "
+                                              "not (dim, npts)")
+                        p_ = px.axes[1]
+                        rows = tuple(comp_axes) + (
+                            tuple(p_) if isinstance(p_, tuple) else (p_,))
+                        return AxArr((rows,) if len(rows) > 1 else rows,
+                                     "values")
+                    raise Unsupported("matrix product")
 
-        class Mat:
-            def skv_binop(self, op, other, reflected):
-                if isinstance(op, ast.MatMult) and not reflected and \
-                        other == "Y":
-                    rows = tuple(comp_axes) + ("pt",)
-                    return AxArr((rows,) if len(rows) > 1 else rows,
-                                 "values")
-                raise Unsupported("matrix product")
-        probed = []
-
-        def probes(a, k, n):
-            probed.append(a[0])
-            return Mat()
-        obj = Obj(bcls, {"probes": PyFunc(probes),
-                         "_base_tensor_order": tensor})
-        try:
-            it = Interp(model)
-            f = it.call(fi, ["Y"], {}, self_obj=obj)
-            r = it.apply(f, [xs], {}, fi.node)
-        except (Unsupported, Raised) as e:
-            raise AnalysisError(f"CellBasis.interpolator: {e}")
-        want = tuple(comp_axes) + ("pt",)
-        ok = isinstance(r, AxArr) and probed and probed[0] is xs and (
-            r.axes == want or (len(want) == 1 and r.axes in (want,
-                                                             (want,))))
-        _v(rep, R3, ok, f"interpolator:reshape[{len(tensor)}-tensor]",
-           f"values come back with axes {want}: row comp*npts + pt of the "
-           f"probing matrix is component comp at point pt", fi.path,
-           "CellBasis.interpolator",
-           f"the probed values come back as {r!r}, not with axes {want}",
-           fi.lineno)
+            def probes(a, k, n):
+                probed.append(a[0])
+                return Mat()
+            obj = Obj(bcls, {"probes": PyFunc(probes),
+                             "_base_tensor_order": tensor})
+            try:
+                it = Interp(model)
+                f = it.call(fi, ["Y"], {}, self_obj=obj)
+                r = it.apply(f, [xs], {}, fi.node)
+            except (Unsupported, Raised) as e:
+                raise AnalysisError(f"CellBasis.interpolator: {e}")
+            want = tuple(comp_axes) + pts_axes
+            ok = isinstance(r, AxArr) and bool(probed) and (
+                r.axes == want or (len(want) == 1 and r.axes in (want,
+                                                                 (want,))))
+            tagp = "" if pts_axes == ("pt",) else ",trailing axes"
+            _v(rep, R3, ok,
+               f"interpolator:reshape[{len(tensor)}-tensor{tagp}]",
+               f"values come back with axes {want}: row comp*npts + pt of "
+               f"the probing matrix is component comp at point pt",
+               fi.path, "CellBasis.interpolator",
+               f"for points with axes {('d',) + pts_axes} and "
+               f"{len(tensor)} component axes the probed values come back "
+               f"as {r!r}, not with axes {want} (MISMATCH: the requested "
+               f"shape does not hold the values - numpy raises)",
+               fi.lineno)
 
 
 def run(model: Model, rep, tier: str) -> None:
@@ -937,6 +944,11 @@ _WE = "skfem/mesh/mesh_wedge_1.py"
 _CB = "skfem/assembly/basis/cell_basis.py"
 _LN = "skfem/mesh/mesh_line_1.py"
 MUTANTS = [
+    ("interpolator drops the component axes for points with trailing axes",
+     ("skfem/assembly/basis/cell_basis.py",
+      "                return out.reshape(self._base_tensor_order + "
+      "shape[1:])", "                return out.reshape(*shape[1:])"),
+     "C14-R3"),
     ("1-D finder pulls every point right of the interval inside",
      (_LN, "            xin[x == self.p[0, ix[-1]]] = ",
       "            xin[x >= self.p[0, ix[-1]]] = "), "C14-R1"),
